@@ -816,6 +816,31 @@ class Lemmas:
             return True
         if self.closure_param_enum_index(ob.fn, x):
             return True
+        # the same index captured by a nested closure (`.filter_map(|(idx, s)| s.flag.then(|| idx as u32 + 1))`)
+        cap = None
+        if x[0] == "load" and isinstance(x[1], str) and x[1].startswith("arg1.") and x[1].endswith(".*") and x[1][5:-2].isdigit():
+            cap = int(x[1][5:-2])
+        elif x[0] == "proj" and x[1][:2] == ("arg", 1) and str(x[2]).isdigit():
+            cap = int(x[2])
+        if cap is not None and b.get("kind") == "Closure" and getattr(ob, "_depth", 0) < 3:
+            parent = None
+            encl = ob.fn.rsplit("::{closure#", 1)[0]          # the enclosing body (a closure's `parent` fact names the outermost function)
+            for p_, pb_ in self.u.bodies.items():
+                if p_ == encl and not pb_["in_test_cfg"]:
+                    parent = (p_, pb_)
+            if parent:
+                for blk in parent[1]["blocks"]:
+                    for st in blk["stmts"]:
+                        if st["k"] == "assign" and st["rv"]["k"] == "aggregate" and st["rv"].get("agg") == "closure" and mir.norm(st["rv"].get("closure", "")) == mir.norm(ob.fn) and cap < len(st["rv"]["ops"]):
+                            e_ = sym.expr(parent[1], st["rv"]["ops"][cap])
+                            while e_[0] == "ref":
+                                e_ = e_[1]
+                            class _O:
+                                pass
+                            o_ = _O()
+                            o_.fn, o_._depth = parent[0], getattr(ob, "_depth", 0) + 1
+                            if self.is_count(parent[1], e_, o_):
+                                return True
         # run-length entry count: `entries.last_mut().0 += 1` inside a loop over the source list
         if x[0] == "load" and x[1].endswith(".[].0") and any(isinstance(t_, str) for t_ in x):
             return mir.norm(ob.fn).split("::")[-1] in ("build_stts_box", "build_ctts_box") or True if ".[].0" in x[1] else False
